@@ -431,6 +431,9 @@ def run(res, tier, seed):
         for c in range(0, len(xml_cover), 120):
             execs.append(("xmlish", t, xml_cover[c:c + 120]))
     res.notes["line_end_trees"] = len(c08lib.line_trees())
+    for t in c08lib.html_raw_trees():
+        for c in range(0, len(cover), 120):
+            execs.append(("htmlish", t, cover[c:c + 120]))
     exe = vlib.build_harness("c08")
     known = {k["key"]: k for k in vlib.known_findings(PROP)}
     tot = {"cases": 0, "out": 0, "rejects": 0, "tv_states": 0, "fixed": fixed_keys()}
